@@ -185,3 +185,16 @@ impl<I: Iterator> Iterator for MarkedFused<I> {
     }
 }
 impl<I: Iterator> core::iter::FusedIterator for MarkedFused<I> {}
+
+/// A source that answers `size_hint()` with a fixed claim, whatever it then delivers
+/// (safe code may do this: `size_hint` is advisory).
+pub struct ClaimHint<I>(pub I, pub (usize, Option<usize>));
+impl<I: Iterator> Iterator for ClaimHint<I> {
+    type Item = I::Item;
+    fn next(&mut self) -> Option<I::Item> {
+        self.0.next()
+    }
+    fn size_hint(&self) -> (usize, Option<usize>) {
+        self.1
+    }
+}
